@@ -235,7 +235,7 @@ func c04Case(job *Job, res *Result, l *c04Log, label string, content []byte, bou
 		if d != ref {
 			viol("state", fmt.Sprintf("recovered state differs from the state of the complete commands before the tear: got %s want %s", vclip(d, 400), vclip(ref, 400)))
 		}
-		if fi, err := os.Stat(f); err != nil || int(fi.Size()) != wantSize {
+		if fi, err := os.Stat(f); wantSize >= 0 && (err != nil || int(fi.Size()) != wantSize) {
 			sz := -1
 			if err == nil {
 				sz = int(fi.Size())
@@ -262,9 +262,13 @@ func c04Case(job *Job, res *Result, l *c04Log, label string, content []byte, bou
 		}
 		after, _ := os.ReadFile(f)
 		eff := bytes.ReplaceAll(after, []byte{0}, nil)
-		wantEff := append(bytes.ReplaceAll(append([]byte(nil), content[:min(len(content), wantSize)]...), []byte{0}, nil), respCmd(c04ExtraCmd...)...)
+		wantEff := append(bytes.ReplaceAll(append([]byte(nil), content[:min(len(content), max(wantSize, boundary))]...), []byte{0}, nil), respCmd(c04ExtraCmd...)...)
 		// zeros inside arguments are legitimate: compare through the parser instead
-		if !c04SameCommands(after, append(append([]byte(nil), content[:min(len(content), wantSize)]...), respCmd(c04ExtraCmd...)...)) {
+		keep := wantSize
+		if keep < 0 {
+			keep = boundary // the torn bytes and the zeros behind them are what the repair removes
+		}
+		if !c04SameCommands(after, append(append([]byte(nil), content[:min(len(content), keep)]...), respCmd(c04ExtraCmd...)...)) {
 			viol("file", fmt.Sprintf("log after repair + one write does not parse to prefix + that write (len %d, effective %d vs %d)", len(after), len(eff), len(wantEff)))
 		}
 		res.Distinct(fnv(l.Name + fmt.Sprint(boundary, len(content)-boundary > 0, wantSize-boundary)))
@@ -306,7 +310,7 @@ func c04Parse(b []byte) (string, bool) {
 }
 
 func checkC04(job *Job, res *Result) {
-	res.Rule = "FAULT: every byte offset of each generated log as a tear (large logs: all offsets in thorough; boundary / read-buffer neighbourhoods + stride in quick); zero runs of 1, 2, 4096 bytes at every command boundary, alone and followed by a torn tail; each case = real server start + one write + restart; distinct = distinct (log, boundary, torn?, padding) classes"
+	res.Rule = "FAULT: every byte offset of each generated log as a tear (large logs: all offsets in thorough; boundary / read-buffer neighbourhoods + stride in quick); zero runs of 1, 2, 4096 bytes at every command boundary, alone and followed by a torn tail; torn commands followed by zero runs of 1, 64, 4096 bytes; each case = real server start + one write + restart; distinct = distinct (log, boundary, torn?, padding) classes"
 	res.Assumptions = append(res.Assumptions,
 		"a tear is a truncation at a byte offset (a crash during an append); zero padding is a run of NUL bytes at a command boundary",
 		"reference state for an offset = state of a real server started on the log cut at the preceding command boundary (differential, no hand-written expectation)")
@@ -396,6 +400,32 @@ func checkC04(job *Job, res *Result) {
 				// the same tear met by a server configured read-only, made writable afterwards
 				c04Case(job, res, l, fmt.Sprintf("log %s (%d bytes) torn at offset %d, server configured read_only then READONLY no", kind, len(l.Data), o),
 					l.Data[:o], b, b, map[string]any{"log": kind, "kind": "tear", "offset": o, "ro": true})
+			}
+		}
+		// ---- a torn command FOLLOWED by a zero run (a partial append whose block was
+		// allocated but not completely written): still a torn tail
+		for _, o := range list {
+			b := l.boundaryAt(o)
+			if o == b || o >= len(l.Data) {
+				continue
+			}
+			if !(small && (kind == "binary" || o%5 == 0) || !small && (o%0xFFFF < 3 || o-b < 3)) {
+				continue
+			}
+			for _, run := range []int{1, 64, 4096} {
+				if res.OverBudget() {
+					break
+				}
+				if only != nil {
+					if only["kind"] != "tear-then-zeros" || int(only["offset"].(float64)) != o || int(only["run"].(float64)) != run {
+						continue
+					}
+				} else if !mine() {
+					continue
+				}
+				content := append(append([]byte(nil), l.Data[:o]...), make([]byte, run)...)
+				c04Case(job, res, l, fmt.Sprintf("log %s (%d bytes) torn at offset %d (last complete command ends at %d) and followed by %d NUL bytes", kind, len(l.Data), o, b, run),
+					content, b, -1, map[string]any{"log": kind, "kind": "tear-then-zeros", "offset": o, "run": run})
 			}
 		}
 		// ---- zero padding at every command boundary (+ optional torn tail)
